@@ -44,3 +44,40 @@ bounded_check(name="c06-signatures", props=["C06"], fn=_b6.run_case, domain=_b6.
               label="B3: 15 signatures x 16 call shapes x 6 changers: the rewritten definition and call executed, bindings of surviving parameters compared through the interpreter")
 bounded_check(name="c06-projects", props=["C06"], fn=_b6.project_case, domain=_b6.project_domain, exhaustive=True, serial=True,
               label="B3: 5 projects: constructor called from another module, dotted receiver, identical call text bound/unbound, keyword+default method calls, classmethod/staticmethod")
+
+# ---- re-emission of a call from the mapping: ArgumentMapping.to_call_info -----------------------------------------------
+record("CallInfoFull", bases=[], fields={"function_name": "Str", "args": "Seq[Opaque[ArgText]]", "keywords": "Seq[Tuple[Str,Opaque[ArgText]]]",
+                                         "args_arg": "Opt[Str]", "keywords_arg": "Opt[Str]", "implicit_arg": "Bool", "constructor": "Bool"})
+REG.records["CallInfo"].fields.update({"function_name": "Str", "args_arg": "Opt[Str]", "keywords_arg": "Opt[Str]", "implicit_arg": "Bool", "constructor": "Bool"})
+contract("CallInfo.__init__", source=M + "CallInfo.__init__", inline=True,
+         params={"self": "CallInfo", "function_name": "Str", "args": "Seq[Opaque[ArgText]]", "keywords": "Seq[Tuple[Str,Opaque[ArgText]]]", "args_arg": "Opt[Str]",
+                 "keywords_arg": "Opt[Str]", "implicit_arg": "Bool", "constructor": "Bool"})
+specdef("bound_in", {"m": "ArgumentMapping", "n": "Str"}, "Bool", "not is_none(select(m.param_dict, n))")
+# k = number of leading parameters that have a value: the positional prefix of the re-emitted call
+specdef("is_prefix_end", {"m": "ArgumentMapping", "d": "DefinitionInfo", "k": "Int"}, "Bool",
+        "0 <= k and k <= len(d.args_with_defaults) and forall(lambda j: implies(0 <= j and j < k, bound_in(m, pname(d, j)))) and "
+        "(k == len(d.args_with_defaults) or not bound_in(m, pname(d, k)))")
+contract("ArgumentMapping.to_call_info", source=M + "ArgumentMapping.to_call_info",
+         params={"self": "ArgumentMapping", "definition_info": "DefinitionInfo"}, returns="CallInfo", ghost_in={"k": "Int"},
+         requires=["is_prefix_end(self, definition_info, k)"],
+         modifies=["CallInfo.function_name[*]", "CallInfo.args[*]", "CallInfo.keywords[*]", "CallInfo.args_arg[*]", "CallInfo.keywords_arg[*]",
+                   "CallInfo.implicit_arg[*]", "CallInfo.constructor[*]"], raises={},
+         locals={"args": "Seq[Opaque[ArgText]]", "keywords": "Seq[Tuple[Str,Opaque[ArgText]]]"},
+         ensures=[
+             # positional part: the values of the leading bound parameters, in order, followed by the surplus positionals
+             "len(result.args) == k + len(self.args_arg)",
+             "forall(lambda j: implies(0 <= j and j < k, Some(result.args[j]) == select(self.param_dict, pname(definition_info, j))))",
+             "forall(lambda j: implies(0 <= j and j < len(self.args_arg), result.args[k + j] == self.args_arg[j]))",
+             # keyword part: every emitted keyword names a parameter after the prefix and carries that parameter's value; the kept keywords follow
+             "len(result.keywords) >= len(self.keyword_args)",
+             "forall(lambda t: implies(0 <= t and t < len(result.keywords) - len(self.keyword_args), "
+             "       Some(result.keywords[t][1]) == select(self.param_dict, result.keywords[t][0])))",
+             "forall(lambda j: implies(0 <= j and j < len(self.keyword_args), result.keywords[len(result.keywords) - len(self.keyword_args) + j] == self.keyword_args[j]))",
+             "result.function_name == self.call_info.function_name and result.args_arg == self.call_info.args_arg and result.keywords_arg == self.call_info.keywords_arg"],
+         loops={1: {"index": "a", "inv": ["len(keywords) == 0", "a <= k", "len(args) == a",
+                                          "forall(lambda j: implies(0 <= j and j < a, Some(args[j]) == select(self.param_dict, pname(definition_info, j))))"]},
+                2: {"index": "b", "inv": ["len(args) == index", "index == k",
+                                          "forall(lambda j: implies(0 <= j and j < len(args), Some(args[j]) == select(self.param_dict, pname(definition_info, j))))",
+                                          "forall(lambda t: implies(0 <= t and t < len(keywords), Some(keywords[t][1]) == select(self.param_dict, keywords[t][0])))"]}},
+         note="what is emitted positionally is exactly the bound prefix; what is emitted by keyword is a parameter with its own value (so the re-bound call gives "
+              "every parameter the value the mapping holds); surplus positionals after an incomplete prefix are the known finding #23")
